@@ -196,7 +196,15 @@ pub fn gen_world(seed: u64, idx: u64, s: &dyn SuiteOps, shared_tapes: bool, samp
     let rf = crate::layout::fields(Kind::CredResp, &lens);
     for _ in 0..24 {
         let (a, bb) = (g.below(sessions.len()), g.below(sessions.len()));
-        let cut = rf[1 + g.below(rf.len() - 1)].off;
+        // mostly at a field boundary; sometimes inside the server MAC (after its first 32 bytes,
+        // or anywhere) or at any offset
+        let mac = rf.last().unwrap();
+        let cut = match g.below(6) {
+            0 => mac.off + 32.min(mac.len - 1),
+            1 => mac.off + 1 + g.below(mac.len - 1),
+            2 => 1 + g.below(mac.off + mac.len - 1),
+            _ => rf[1 + g.below(rf.len() - 1)].off,
+        };
         let (cst, _, pw, cids) = &clients[(if g.chance(1, 2) { a } else { bb } / (records.len() * 2)).min(clients.len() - 1)];
         let out = b.id();
         let resp = Ref::Splice { kind: Kind::CredResp, parts: vec![Part { id: sessions[a].1, from: 0, to: cut }, Part { id: sessions[bb].1, from: cut, to: usize::MAX }] };
@@ -222,6 +230,20 @@ pub fn gen_world(seed: u64, idx: u64, s: &dyn SuiteOps, shared_tapes: bool, samp
             adv.push(Op::LoginFinish { out, st: Ref::mem(*cst), pw: pw.clone().into(), resp: Ref::mem(msg), ctx: ctx.clone().map(Into::into), ids: cids.clone(), ksf: ksf.clone() });
             adv.push(Op::ServerFinish { st: Ref::mem(st), fin: Ref::mem(out) });
         }
+    }
+    // (d) a client's own request followed by bytes of another one: answered under that client's
+    // record, and the client tries to finish with the answer
+    for (x, extra) in [(0usize, 1usize), (1, 300), (3, 32)] {
+        let st = b.id();
+        let msg = b.id();
+        let tape = stape(&mut b, "loginrespond");
+        let req = Ref::Splice { kind: Kind::CredReq, parts: vec![whole(clients[x].1), Part { id: clients[(x + 1) % clients.len()].1, from: 0, to: extra }] };
+        let who = [0usize, 1, 0, 2][x];
+        adv.push(Op::LoginRespond { st, msg, tape, setup: Ref::mem(setup), record: Some(Ref::mem(regs[who].0)), req, cred: regs[who].2.clone().into(), ctx: ctx.clone().map(Into::into), ids: regs[who].3.clone() });
+        let (cst, _, pw, cids) = &clients[x];
+        let out = b.id();
+        adv.push(Op::LoginFinish { out, st: Ref::mem(*cst), pw: pw.clone().into(), resp: Ref::mem(msg), ctx: ctx.clone().map(Into::into), ids: cids.clone(), ksf: ksf.clone() });
+        adv.push(Op::ServerFinish { st: Ref::mem(st), fin: Ref::mem(out) });
     }
     let n_adv = adv.len();
     let mut g2 = Gen::new(seed, &format!("sched/c07/{}/{}", s.name(), idx));
@@ -302,7 +324,7 @@ pub fn judge(w: &World, r: &RunResult) -> Vec<Violation> {
 
 pub fn run(ctx: &Ctx) -> Report {
     let mut rep = Report::new(
-        "per world: 1 server, records {u1(pw1,a), u2(pw2,b), u3(pw1,b), u1 re-registered(pw1,a), none}, credential ids {a,b}, an old complete u1 login (replay source), live client sessions {pw1, pw2, wrong pw, pw1}; every request (4 live + old) -> every (record|none, cred) = 50 server sessions; every response (50 + old) -> every pending client = 204 client finishes; every finalization that may exist -> every server session; messages the adversary assembles from observed ones (a finalization followed/preceded by another one, to the session it answers; 24 responses cut at a field boundary between two sessions' responses; 4 requests with one client's blinded element and another's nonce and key share); executed in a seeded random topological order with one shared RNG per party (flavour A) or label tapes + a second interleaving compared output-by-output (flavour B); then faults stop and every registered user must complete one honest login in four steps. Oracle: Model A on every finish, key agreement, pairwise-distinct session keys. Quick samples 1/4 of the client finishes on the P-384/P-521 key-exchange groups. Plus seeded random walks (40-120 random ops over 1-3 setups incl. a key-swapped one, 4 passwords, 3 credential ids incl. a whitespace twin, 5 identity sets, 4 contexts, 3 KSF spellings; every input a random existing item, random codecs, random crash/reload), judged by Model A",
+        "per world: 1 server, records {u1(pw1,a), u2(pw2,b), u3(pw1,b), u1 re-registered(pw1,a), none}, credential ids {a,b}, an old complete u1 login (replay source), live client sessions {pw1, pw2, wrong pw, pw1}; every request (4 live + old) -> every (record|none, cred) = 50 server sessions; every response (50 + old) -> every pending client = 204 client finishes; every finalization that may exist -> every server session; messages the adversary assembles from observed ones (a finalization followed/preceded by another one, to the session it answers; 24 responses cut between two sessions' responses at a field boundary, inside the server MAC or anywhere; 4 requests with one client's blinded element and another's nonce and key share; 3 requests followed by bytes of another request); executed in a seeded random topological order with one shared RNG per party (flavour A) or label tapes + a second interleaving compared output-by-output (flavour B); then faults stop and every registered user must complete one honest login in four steps. Oracle: Model A on every finish, key agreement, pairwise-distinct session keys. Quick samples 1/4 of the client finishes on the P-384/P-521 key-exchange groups. Plus seeded random walks (40-120 random ops over 1-3 setups incl. a key-swapped one, 4 passwords, 3 credential ids incl. a whitespace twin, 5 identity sets, 4 contexts, 3 KSF spellings; every input a random existing item, random codecs, random crash/reload), judged by Model A",
     );
     let mut suites: Vec<&'static dyn SuiteOps> = SIM_SUITES.to_vec();
     if !ctx.quick() {
